@@ -215,6 +215,21 @@ def run_stmts(R, stmts, cur):
                     raise
             else:
                 R.check(f"after exit of {tokstr(tok)}", pub(cur), cur)
+        elif s[0] == "withobj":  # a context object that was constructed before the program entered any block (possibly entered twice)
+            tok, body = TOKENS[OBJ_TOKS[s[1]]], s[2]
+            inside = apply(pub(cur), tok[3])
+            try:
+                with OBJS[s[1]]:
+                    full_in = R.check(f"inside pre-built {tokstr(tok)}", inside)
+                    run_stmts(R, body, full_in)
+                    R.check(f"inside pre-built {tokstr(tok)} after body", inside, full_in)
+            except Boom as e:
+                R.check(f"after exceptional exit of pre-built {tokstr(tok)}", pub(cur), cur)
+                e.k -= 1
+                if e.k > 0:
+                    raise
+            else:
+                R.check(f"after exit of pre-built {tokstr(tok)}", pub(cur), cur)
         elif s[0] == "with2":  # multi-item with A, B:
             ta, tb, body = TOKENS[s[1]], TOKENS[s[2]], s[3]
             inside = apply(apply(pub(cur), ta[3]), tb[3])
@@ -264,9 +279,18 @@ def run_stmts(R, stmts, cur):
                 R.check("after ExitStack", pub(cur), cur)
 
 
+OBJS, OBJ_TOKS = [], []
+
+
 def run_program(prog, default):
     util.settings_restore()
     R = Run(default)
+    OBJS.clear()
+    OBJ_TOKS.clear()
+    if prog and prog[0][0] == "objs":  # context objects constructed up front, outside every block
+        OBJ_TOKS.extend(prog[0][1])
+        OBJS.extend(make(TOKENS[t]) for t in prog[0][1])
+        prog = prog[1:]
     try:
         run_stmts(R, prog, default)
     except Boom:
@@ -284,6 +308,10 @@ def describe(prog):
             out.append(f"raise(caught {s[1]} up)")
         elif s[0] == "with":
             out.append(f"with {tokstr(TOKENS[s[1]])}: [{describe(s[2])}]")
+        elif s[0] == "objs":
+            out.append("pre-built objects " + ", ".join(f"c{i} = {tokstr(TOKENS[t])}" for i, t in enumerate(s[1])))
+        elif s[0] == "withobj":
+            out.append(f"with c{s[1]}: [{describe(s[2])}]")
         elif s[0] == "with2":
             out.append(f"with {tokstr(TOKENS[s[1]])}, {tokstr(TOKENS[s[2]])}: [{describe(s[3])}]")
         elif s[0] == "bad":
@@ -318,6 +346,16 @@ def programs_for(cell):
         for b in REDUCED:
             yield [("with", a, []), ("with", b, [])]
             yield [("with", a, [("raise", 1)]), ("with", b, [])]
+    elif fam == "Fobj":
+        # context objects constructed before any block: entered inside another block, entered twice (nested and in sequence)
+        for flt in ([], [("raise", 1)]):
+            yield [("objs", [a]), ("withobj", 0, [("withobj", 0, list(flt))])]
+            yield [("objs", [a]), ("withobj", 0, list(flt)), ("withobj", 0, [])]
+        for b in REDUCED:
+            for flt in ([], [("raise", 1)], [("raise", 2)]):
+                yield [("objs", [a]), ("with", b, [("withobj", 0, list(flt))])]
+            yield [("objs", [a]), ("withobj", 0, [("with", b, [("withobj", 0, [])])])]
+            yield [("objs", [a, b]), ("withobj", 1, [("withobj", 0, [])]), ("withobj", 0, [("withobj", 1, [])])]
     elif fam == "F2e":
         for bi in range(len(BAD)):
             yield [("with", a, [("bad", bi, None)])]
@@ -378,9 +416,20 @@ def run_cell(cell, seed):
                 continue
             per_key[key] = 1
             nonerestore = all(e == "None" for e, g in diff.values())
+
+            def _from_lo(name):
+                import linear_operator.settings as LS
+                if name.startswith("lo."):
+                    return True  # raw attribute of a class in linear_operator.settings
+                name = name[len("settings."):] if name.startswith("settings.") else name
+                c = CLASSES.get(name) or getattr(LS, name, None)
+                return c is not None and (c.__module__ or "").startswith("linear_operator")
+
             fails.append({"sub": "scoping", "symptom": f"{where}: {util.jdump(diff)[:200]}",
                           "detail": f"program: {describe(prog)} | all errors: {R.errs[:4]}",
-                          "features": {"culprits": cls, "expected_none": nonerestore, "program": describe(prog)}})
+                          "features": {"culprits": cls, "expected_none": nonerestore, "program": describe(prog),
+                                       "prebuilt": bool(prog) and prog[0][0] == "objs",
+                                       "culprits_in_linear_operator": bool(cls) and all(_from_lo(c) for c in cls)}})
     res = {"fails": fails, "ops": nobs, "sig": "ok" if not fails else "violations", "features": {"fam": cell["fam"]},
            "notes": {"programs": nprog, "programs_nontrivial": nontriv},
            "state_digests": sorted(str(x) for x in states)}
@@ -448,7 +497,7 @@ def main(ctx):
     thorough = ctx.tier == "thorough"
     cells = [{"fam": "defaults"}]
     cells += [{"fam": "F1", "a": a} for a in range(n)]
-    cells += [{"fam": f, "a": a} for f in ("F2", "F2m", "F2s", "F2e") for a in range(n)]
+    cells += [{"fam": f, "a": a} for f in ("F2", "F2m", "F2s", "F2e", "Fobj") for a in range(n)]
     own, coupled = groups()
     for cname, g in own.items():
         d = 5 if thorough else 3
